@@ -101,8 +101,12 @@ func (g *typeGen) leaf() *tv.Desc {
 		return &tv.Desc{K: "string"}
 	case x < 72:
 		return &tv.Desc{K: g.pick("numkind", []string{"int64", "uint16", "float64", "float32", "uint", "int16"})}
-	case x < 78:
+	case x < 76:
 		return &tv.Desc{K: "ptr", Elem: &tv.Desc{K: "int"}}
+	case x < 78:
+		// **int: a non-nil pointer to a nil pointer encodes as null without being
+		// "empty" up front (omitempty has to take the member back out)
+		return &tv.Desc{K: "ptr", Elem: &tv.Desc{K: "ptr", Elem: &tv.Desc{K: "int"}}}
 	case x < 80:
 		return &tv.Desc{K: "ptr", Elem: &tv.Desc{K: "string"}}
 	case x < 85:
@@ -179,7 +183,7 @@ func (g *typeGen) field(usedJSON, usedGo map[string]bool) tv.Field {
 		opts = append(opts, "omitempty")
 	}
 	base := f.T
-	if base.K == "ptr" {
+	for base.K == "ptr" {
 		base = base.Elem
 	}
 	if isNumeric(base.K) && g.pc("string", 25) {
